@@ -44,3 +44,75 @@ Print Assumptions C01_default.
 Theorem C01_examples : qwt_example_checks 256 /\ qwt_example_checks 512.
 Proof. exact (conj qwt_example_256 qwt_example_512). Qed.
 Print Assumptions C01_examples.
+
+From QwtModel Require Import Loops FnsQwt FnsQwtOk.
+
+(* ---- T5: the WALKS of the quad wavelet tree REGENERATED from src/quadwt/mod.rs on every run
+   (tools/gen_fns.py -> Gen/FnsQwt.v: get / rank / select with its downward and upward passes, the i64 `shift`,
+   the `?` early returns and the local path vectors; element type symbolic of width w, RS = RSQVector<RSSupportPlain<B>>
+   for B = 256 and 512, whose own API is regenerated too, Gen/FnsRsq.v), applied to the fields of the tree the
+   hand-modelled constructor builds (`qvs` as one list per field of RSQVector: qwt_data / qwt_pos / qwt_sbs /
+   qwt_samples / qwt_occs), return exactly the list specification for every sequence, symbol, position and
+   occurrence index, for every fuel above the number of superblocks of a level. *)
+Theorem C01_source_get_256 : forall w s t, width_ok w -> Forall (fun x => x < 2 ^ w) s -> len s < RSQ_MAXN ->
+  qwt_new w 256 s = Val t -> forall i,
+  g_qwt256_get w (q_n t) (q_n_levels t) (qwt_data t) (qwt_pos t) (qwt_sbs t) (qwt_occs t) i = Val (nthN s i).
+Proof. exact g_qwt256_get_new. Qed.
+Print Assumptions C01_source_get_256.
+Theorem C01_source_get_512 : forall w s t, width_ok w -> Forall (fun x => x < 2 ^ w) s -> len s < RSQ_MAXN ->
+  qwt_new w 512 s = Val t -> forall i,
+  g_qwt512_get w (q_n t) (q_n_levels t) (qwt_data t) (qwt_pos t) (qwt_sbs t) (qwt_occs t) i = Val (nthN s i).
+Proof. exact g_qwt512_get_new. Qed.
+Print Assumptions C01_source_get_512.
+Theorem C01_source_rank_256 : forall w s t, width_ok w -> Forall (fun x => x < 2 ^ w) s -> len s < RSQ_MAXN ->
+  qwt_new w 256 s = Val t -> forall c i, c < 2 ^ w ->
+  g_qwt256_rank w (q_n t) (q_n_levels t) (q_sigma t) (qwt_data t) (qwt_sbs t) (qwt_occs t) c i
+  = Val (if negb (len s =? 0) && (i <=? len s) && (c <=? maxN s) then Some (rank_spec s c i) else None).
+Proof. exact g_qwt256_rank_new. Qed.
+Print Assumptions C01_source_rank_256.
+Theorem C01_source_rank_512 : forall w s t, width_ok w -> Forall (fun x => x < 2 ^ w) s -> len s < RSQ_MAXN ->
+  qwt_new w 512 s = Val t -> forall c i, c < 2 ^ w ->
+  g_qwt512_rank w (q_n t) (q_n_levels t) (q_sigma t) (qwt_data t) (qwt_sbs t) (qwt_occs t) c i
+  = Val (if negb (len s =? 0) && (i <=? len s) && (c <=? maxN s) then Some (rank_spec s c i) else None).
+Proof. exact g_qwt512_rank_new. Qed.
+Print Assumptions C01_source_rank_512.
+Theorem C01_source_select_256 : forall w s t, width_ok w -> Forall (fun x => x < 2 ^ w) s -> len s < RSQ_MAXN ->
+  qwt_new w 256 s = Val t -> forall c k fuel, c < 2 ^ w -> k < 2 ^ 64 ->
+  (S (S (N.to_nat (len s / (8 * 256)))) <= fuel)%nat ->
+  g_qwt256_select fuel w (q_n t) (q_n_levels t) (q_sigma t) (qwt_data t) (qwt_pos t) (qwt_sbs t) (qwt_samples t)
+    (qwt_occs t) c k
+  = Val (if negb (len s =? 0) && (c <=? maxN s) then select_spec s c k else None).
+Proof. exact g_qwt256_select_new. Qed.
+Print Assumptions C01_source_select_256.
+Theorem C01_source_select_512 : forall w s t, width_ok w -> Forall (fun x => x < 2 ^ w) s -> len s < RSQ_MAXN ->
+  qwt_new w 512 s = Val t -> forall c k fuel, c < 2 ^ w -> k < 2 ^ 64 ->
+  (S (S (N.to_nat (len s / (8 * 512)))) <= fuel)%nat ->
+  g_qwt512_select fuel w (q_n t) (q_n_levels t) (q_sigma t) (qwt_data t) (qwt_pos t) (qwt_sbs t) (qwt_samples t)
+    (qwt_occs t) c k
+  = Val (if negb (len s =? 0) && (c <=? maxN s) then select_spec s c k else None).
+Proof. exact g_qwt512_select_new. Qed.
+Print Assumptions C01_source_select_512.
+Theorem C01_source_unchecked_256 : forall w s t, width_ok w -> Forall (fun x => x < 2 ^ w) s ->
+  len s < RSQ_MAXN -> qwt_new w 256 s = Val t ->
+  (forall c i, 0 < len s -> c <= maxN s -> i <= len s ->
+     g_qwt256_rank_unchecked w (q_n_levels t) (qwt_data t) (qwt_sbs t) (qwt_occs t) c i = Val (rank_spec s c i)) /\
+  (forall c k p fuel, c < 2 ^ w -> select_spec s c k = Some p -> (S (S (N.to_nat (len s / (8 * 256)))) <= fuel)%nat ->
+     g_qwt256_select_unchecked fuel w (q_n t) (q_n_levels t) (q_sigma t) (qwt_data t) (qwt_pos t) (qwt_sbs t)
+       (qwt_samples t) (qwt_occs t) c k = Val p).
+Proof.
+  intros w s t Hw HF Hn E.
+  exact (conj (g_qwt256_rank_unchecked_new w s t Hw HF Hn E) (g_qwt256_select_unchecked_new w s t Hw HF Hn E)).
+Qed.
+Print Assumptions C01_source_unchecked_256.
+Theorem C01_source_unchecked_512 : forall w s t, width_ok w -> Forall (fun x => x < 2 ^ w) s ->
+  len s < RSQ_MAXN -> qwt_new w 512 s = Val t ->
+  (forall c i, 0 < len s -> c <= maxN s -> i <= len s ->
+     g_qwt512_rank_unchecked w (q_n_levels t) (qwt_data t) (qwt_sbs t) (qwt_occs t) c i = Val (rank_spec s c i)) /\
+  (forall c k p fuel, c < 2 ^ w -> select_spec s c k = Some p -> (S (S (N.to_nat (len s / (8 * 512)))) <= fuel)%nat ->
+     g_qwt512_select_unchecked fuel w (q_n t) (q_n_levels t) (q_sigma t) (qwt_data t) (qwt_pos t) (qwt_sbs t)
+       (qwt_samples t) (qwt_occs t) c k = Val p).
+Proof.
+  intros w s t Hw HF Hn E.
+  exact (conj (g_qwt512_rank_unchecked_new w s t Hw HF Hn E) (g_qwt512_select_unchecked_new w s t Hw HF Hn E)).
+Qed.
+Print Assumptions C01_source_unchecked_512.
